@@ -86,6 +86,13 @@ CHECKS = {
         note="Inner strategies: whitelist of strategies whose candidate utilities are independent of the other candidates; a divergence is reported only after the same chunks evaluated sequentially by the harness agree with the unchunked query. Pick equality only when the utilities are bit-identical or the top-two gap is clear, and only when the wrapped strategy's own pick is a function of (utilities, seed). Pre-emption granularity is a Python line inside skactiveml; loky is represented by pickle isolation.",
         design="4/C20",
     ),
+    "C07": dict(
+        engine="crowdsim",
+        technique=TECH + "crowd-labelling histories with annotator-availability faults (annotators off-line, pairs blocked, no answer) under all documented argument representations; per-call invariant monitor; line-count fuel for the liveness clause",
+        text="A multi-annotator strategy (SingleAnnotatorWrapper around real single-annotator strategies, IntervalEstimationThreshold) is driven through several crowd-labelling cycles on a label matrix that fills up. Per cycle the scheduler decides which annotators are off-line, which pairs are blocked, whether a queried annotator answers, how availability and candidates are expressed (None, index array, boolean matrix, feature rows), the batch size and the annotators-per-sample request. Every call must return within a deterministic step budget; the result must be k = min(batch_size, available pairs) pairwise distinct available pairs; utilities must have the documented shape, be NaN at unavailable and already chosen pairs and a number at the chosen pair; an integer annotators-per-sample request must be met for every selected sample but the last where the selected samples offer enough pairs.",
+        note="Availability is what the arguments say (documented table). CoreSet is not used as wrapped strategy (its own defect with labeled index candidates would only be passed on). IntervalEstimationThreshold returning fewer pairs is a recorded known finding.",
+        design="4/C07",
+    ),
 }
 
 NOT_APPLICABLE = {
